@@ -719,7 +719,7 @@ func caTargets() []target {
 			wantRoots = []RootReq{r("r1", false), r("r3", true)}
 		default:
 			invalidN++
-			wantRoots = [][]RootReq{{r("r1", true), r("r3", true)}, {r("r1", false)}, {r("", true)}, {r("r3", true), r("", false)}}[invalidN%4]
+			wantRoots = [][]RootReq{{r("r1", true), r("r3", true)}, {r("r1", false)}, {r("", true)}, {r("r3", true), r("", false)}, {r("r3", true), r("r1", false), r("r3", false)}}[invalidN%5]
 		}
 		return wantRoots
 	}
@@ -1241,9 +1241,13 @@ func randomCase(id int, rng *rand.Rand, family string, n int) Case {
 		case 8:
 			d := b.im.cdump()
 			rs := []RootReq{{ID: "r1", Active: rng.Intn(2) == 0}, {ID: "r2", Active: rng.Intn(2) == 0}}
-			if rng.Intn(4) == 0 { // the same root ID twice: the later one is the one stored
-				rs = []RootReq{{ID: "r1", Active: true}, {ID: "r2", Active: false}, {ID: "r1", Active: false}, {ID: "r2", Active: true}}[rng.Intn(2)*2:][:2]
-				rs = append(rs, RootReq{ID: rs[0].ID, Active: !rs[0].Active})
+			if rng.Intn(3) == 0 { // the same root ID twice: the later entry is the one stored; it must not replace the active root
+				rs = [][]RootReq{
+					{{ID: "r1", Active: false}, {ID: "r2", Active: true}, {ID: "r1", Active: false}},
+					{{ID: "r2", Active: false}, {ID: "r1", Active: true}, {ID: "r2", Active: false}, {ID: "r2", Active: false}},
+					{{ID: "r1", Active: true}, {ID: "r2", Active: false}, {ID: "r1", Active: false}},
+					{{ID: "r1", Active: false}, {ID: "r1", Active: true}},
+				}[rng.Intn(4)]
 			}
 			b.c(CCmd{Kind: "ca-set-roots", Index: rootsIndex(&d), Roots: rs})
 		}
